@@ -1735,7 +1735,8 @@ func (pc *PeerConnection) startRTPReceivers(remoteDesc *SessionDescription, curr
 				Direction: RTPTransceiverDirectionSendrecv,
 			})
 			if err != nil {
-				pc.log.Warnf("Could not add transceiver for remote SSRC %d: %s", incomingTrack.ssrcs[0], err)
+				// a track announced by rid only has no SSRC
+				pc.log.Warnf("Could not add transceiver for remote SSRC %v: %s", incomingTrack.ssrcs, err)
 
 				continue
 			}
